@@ -7,6 +7,7 @@ import PsVerif.Lemmas.Argmax
 import PsVerif.Lemmas.Greedy
 import PsVerif.Lemmas.GramAlg
 import PsVerif.Lemmas.SqrtOrder
+import PsVerif.Lemmas.Masked
 import PsVerif.Props.C01
 import PsVerif.Props.C03
 import PsVerif.Props.C04
